@@ -714,8 +714,18 @@ def check_typelevel(ctx, rule, prefix, minimum, unit="typelevel"):
     from .ir import load_unit
     u = load_unit(unit, extra_flags=("-fconstexpr-steps=200000000",))
     ctx.use_unit(u)
+    from .ir import ROOT
     other = [e for e in u.diagnostics if e["level"] == "error" and "static_assert" not in e["text"]
              and "static assertion" not in e["text"]]
+    own = [e for e in u.diagnostics if e["level"] == "error" and e["file"].startswith(ROOT)
+           and ("static_assert" in e["text"] or "static assertion" in e["text"])]
+    seen = set()
+    for e in own:
+        if e["text"] in seen:
+            continue
+        seen.add(e["text"])
+        ctx.inst(rule, "repository static_assert: %s" % e["text"][:120], False, "%s:%s" % (e["file"], e["line"]),
+                 "the repository's own compile-time check fails when the class is instantiated")
     if other:
         raise AnalysisBroken("type-level witness unit does not compile: %s" % "; ".join(
             "%s:%s: %s" % (e["file"], e["line"], e["text"]) for e in other[:3]))
